@@ -71,7 +71,11 @@ def gen(seed, idx, tier):
         return scn
     scn = _gen(seed, idx, tier)
     # a third of the histories: the loaded solution is also looked at through other saved steps
-    scn["views"] = substream(seed, idx, "c05-views").random() < 0.35
+    rv = substream(seed, idx, "c05-views")
+    scn["views"] = rv.random() < 0.35
+    if scn["views"] and rv.random() < 0.4:
+        k = scn["options"]["save_every"]
+        scn["path_reuse"] = {"save_every": rv.choice([x for x in (1, 2, 3, 5) if x != k])}
     return scn
 
 
@@ -268,7 +272,30 @@ def run(scn):
         res["violations"] = [v for v in res["violations"] if v["rule"] in CANCEL_RULES]
         res["sig"] = ("cancelled",) + tuple(res["sig"] if isinstance(res["sig"], (tuple, list)) else (res["sig"],))
         return res
-    sim, h = run_scenario(scn)
+    reuse_root = None
+    if scn.get("path_reuse") and (scn.get("observer", {}).get("output") or {}).get("absolute", False) and not scn.get("observer", {}).get("preexisting"):
+        # the output path has a history inside this process: an earlier, different run (other save
+        # interval) was written to the same path, loaded, and deleted before this run
+        import shutil
+        import tempfile
+
+        import tdgl
+
+        reuse_root = tempfile.mkdtemp(prefix="tdglsim-")
+        s0 = copy.deepcopy(scn)
+        s0.pop("path_reuse")
+        s0["views"] = False
+        s0["options"]["save_every"] = scn["path_reuse"]["save_every"]
+        s0["faults"] = []
+        sim0, h0 = run_scenario(s0, root=reuse_root)
+        try:
+            if h0.outcome == "solution" and h0.out_path and os.path.exists(h0.out_path):
+                earlier = tdgl.Solution.from_hdf5(h0.out_path)
+                _ = earlier.times
+                os.remove(h0.out_path)
+        finally:
+            sim0.cleanup()
+    sim, h = run_scenario(scn, root=reuse_root)
     try:
         V, status, final = oracle(scn, sim, h)
         k = scn["options"]["save_every"]
@@ -293,6 +320,10 @@ def run(scn):
         return res
     finally:
         sim.cleanup()
+        if reuse_root is not None:
+            import shutil
+
+            shutil.rmtree(reuse_root, ignore_errors=True)
 
 
 def shrink(scn):
